@@ -239,7 +239,7 @@ def random_cases(out, rnd, n):
             elif k == 'unack': g.unack()
             elif k in ('ackread', 'cmtimer', 'fire', 'dt_starttimer'): g.simple(k)
             elif k == 'pause': g.pause()
-            elif k == 'parent': g.parent()
+            elif k == 'parent': g.parent()      # ckgen.Gen.parent pins next_check after a parent recovery (active objects)
             elif k == 'dt_add': g.dt_add()
             elif k == 'dt_remove': g.dt_remove()
             elif k == 'dt_cleanup': g.dt_cleanup()
